@@ -18,5 +18,20 @@ CLAIMED = {
   "note": "Array extents and table sizes regenerated from the C on every run; out-of-bounds accesses that land in valid memory are invisible to the sanitizer oracle and are covered only where a theorem exists.",
   "technique": "Coq proof of array-bounds invariants (closed-tree invariant, loop measures); grammar-aimed differential run against an ASan+bounds+null build",
  },
+ "C03": {
+  "text": "Theorems stored_identity / stored_identity_short (stored methods deliver the bytes unchanged up to the declared length, for every read schedule), lz5_roundtrip and lzs_roundtrip (for EVERY list of well-formed commands incl. copies from never-written and self-overlapping ring positions, any unused flag bits, any trailing bytes, any read schedule: decode(serialise cmds) = what the commands denote on the ring machine of S_Larc.v), lz5_initial_ring (the five fill loops produce the closed-form LArc pattern; 2^12 sweep). Closed under the global context.",
+  "note": "Spec (ring machine, serialisers) written independently in S_Larc.v; models Null.v/Lzs.v/Lz5.v/BitReader.v/Decoder.v tied to the C by correspondence (exhaustive over every ring position x {min,max} length, random command lists) and by the direct oracle C-output = extracted spec expansion. Source = full-read callback (a callback that returns 1 of 2 requested bytes makes -lz5- use an unwritten byte; outside the theorem).",
+  "technique": "Coq proof (simulation of the spec ring machine, bit-reader refinement, chunks-to-API lemma); differential run + spec-encoder round trip on the C",
+ },
+ "C11": {
+  "text": "Theorem returned_names_ok: for EVERY input stream state and any mktime, a header returned by the model of lha_file_header_read has a file name without '/' and a path whose '/'-terminated components are all real names (not empty, '.', '..') apart from one leading '/'; collapse_path_ok for every byte string (invariant of the in-place two-pointer machine); join_does_not_climb. Closed under the global context.",
+  "note": "Header.v hand-modelled (all four levels, extended headers, symlink forms, case folding); tied by correspondence on every string over {'.','/','\\',0xFF,NUL,'a'} up to length 5 (quick) / 7 (thorough) through 8 name sources, with the path invariant also evaluated directly on the C's output.",
+  "technique": "Coq proof (loop invariant of collapse_path; filename invariant through the whole parser); exhaustive small-string differential run + direct invariant oracle on the C",
+ },
+ "C12": {
+  "text": "Theorem returned_header_is_intact: every header the model of the parser returns satisfies the independent predicate intact (level <= 3; level-0/1 checksum and length rules; level-2/3 length rules and word size; common CRC equals CRC-16 of the raw header with the field zeroed; file => name, directory => path), for EVERY input stream state; level_above_3_rejected; iteration_stops / next_file_stops_at_rejected_header (after the first rejected header every later call returns None and leaves the reader untouched). The level-1 checksum clause carries the guard 'header < 4 GiB' (beyond it the C's unsigned offset wraps; noted in DESIGN.md). Closed under the global context.",
+  "note": "Tied by correspondence and by an independent Python intact() on all 255 substitutions at every byte, every truncation and length-field perturbations of generated headers (hundreds of thousands of cases per run).",
+  "technique": "Coq proof (soundness of the parser w.r.t. an independent integrity predicate); exhaustive single-byte-substitution differential run + independent oracle",
+ },
 }
 NOT_APPLICABLE = {("C%02d" % i): _PENDING for i in range(1, 21) if ("C%02d" % i) not in CLAIMED}
